@@ -316,7 +316,13 @@ fn stop_continue_one(ctx: &Ctx, prop: &str, script: &str, delay: u64) {
 /// descriptor change under it while it is suspended).
 fn shared_pipe_slice(ctx: &Ctx) {
     // (script, bytes the final consumer must count)
-    const SHAPES: [(&str, usize); 5] = [
+    const SHAPES: [(&str, usize); 9] = [
+        // pipelines of three and more stages started with standard output and/or input closed: the
+        // pipe ends then land on descriptors 0 and 1 themselves and must be moved out of each other's way
+        ("{ gen 2000 1 | relay | relay | sink total; probe k1 \"$?\"; } >&-\nprobe k2 \"$?\"\n", 2000),
+        ("{ gen 1500 1 | relay | sink total; probe k1 \"$?\"; } <&- >&-\nprobe k2 \"$?\"\n", 1500),
+        ("{ gen 1500 1 | relay | relay | relay | sink total; probe k1 \"$?\"; } <&-\nprobe k2 \"$?\"\n", 1500),
+        ("exec 3>&1 >&-\ngen 2500 1 | { relay; } | ( relay ) | sink total\nprobe k1 \"$?\"\nexec >&3 3>&-\nprobe k2 \"$?\"\n", 2500),
         ("{ gen 3000 1 & gen 3000 2; wait; probe k1 \"$?\"; } | sink total\nprobe k2 \"$?\"\n", 6000),
         ("{ gen 3000 1 & gen 3000 2; } | sink total\nprobe k2 \"$?\"\n", 6000),
         ("{ ( gen 2000 1 ) & ( gen 2000 4 ) & gen 2000 2; wait; probe k1 \"$?\"; } | sink total\nprobe k2 \"$?\"\n", 6000),
@@ -369,7 +375,14 @@ fn shared_pipe_slice(ctx: &Ctx) {
 /// other N - stop signals, continue, ignored ones, unknown numbers - it must simply exit): each
 /// kind of child terminates, is reaped, and `$?` / `wait` report the status.
 fn exit_status_sweep(ctx: &Ctx) {
-    const KINDS: [(&str, &str); 5] = [
+    const KINDS: [(&str, &str); 11] = [
+        // children that end through `exit` / `return` rather than by running off their last command
+        ("asynchronous group ending with exit", "{ probe k1; exit ST; probe never; } &\nwait $!\nprobe k2 \"$?\"\n"),
+        ("asynchronous function call ending with return", "f() { probe k1; return ST; probe never; }\nf &\nwait $!\nprobe k2 \"$?\"\n"),
+        ("subshell ending with exit", "( probe k1; exit ST; probe never )\nprobe k2 \"$?\"\n"),
+        ("last pipeline stage ending with exit", "probe k0 | { probe k1; exit ST; }\nprobe k2 \"$?\"\n"),
+        ("command substitution ending with exit", "x=$(probe k1; exit ST)\nprobe k2 \"$?\"\n"),
+        ("asynchronous list ending with exit inside a loop", "for i in 1; do probe k1; exit ST; done &\nwait $!\nprobe k2 \"$?\"\n"),
         ("subshell", "( probe -s ST k1 )\nprobe k2 \"$?\"\n"),
         ("asynchronous list", "probe -s ST k1 &\nwait $!\nprobe k2 \"$?\"\n"),
         ("command substitution", "x=$(probe -s ST k1)\nprobe k2 \"$?\"\n"),
